@@ -106,6 +106,16 @@ example : scopeCheck (sampleAuth b!"AKID/20150830/us-east-1x/iam/aws4_request") 
 example : scopeCheck (sampleAuth b!"AKID/20150831/us-east-1/iam/aws4_request") b!"us-east-1" b!"iam"
     = .err .SignatureDoesNotMatch := by decide
 
+/-- Header bytes and decoded query-carrier parameters are read one character per byte
+(`latin1_to_string`, `c as char`). That reading is injective: two different byte strings are never
+read as the same credential, so the scope comparison (on text) decides the bytes on the wire. -/
+theorem latin1ToString_injective (a b : Bytes) (h : latin1ToString a = latin1ToString b) : a = b := by
+  exact c03_latin1ToString_inj a b h
+
+/-- The UTF-8 bytes of a non-ASCII region are *not* read as that region. -/
+example : latin1ToString [0x72, 0xC3, 0xA9] ≠ [0x72, 0xC3, 0xA9] := by decide
+example : latin1ToString [0x72, 0xE9] = [0x72, 0xC3, 0xA9] := by decide
+
 end SigV4.C03
 
 #print axioms SigV4.C03.scopeCheck_ok_iff
@@ -115,3 +125,4 @@ end SigV4.C03
 #print axioms SigV4.C03.provider_args
 #print axioms SigV4.C03.foreign_scope_refused
 #print axioms SigV4.C03.scope_in_string_to_sign
+#print axioms SigV4.C03.latin1ToString_injective
